@@ -909,10 +909,13 @@ func (r *Reader) processHeading(h headingXML) parsedParagraph {
 		Level:     1, // Default level
 	}
 
-	// Parse outline level
+	// Parse outline level: text:outline-level on the heading itself is the
+	// authoritative level (ODF 1.2: "specifies the outline level of a heading")
+	hasOutlineLevel := false
 	if h.OutlineLevel != "" {
 		if level, err := strconv.Atoi(h.OutlineLevel); err == nil && level >= 1 && level <= 9 {
 			parsed.Level = level
+			hasOutlineLevel = true
 		}
 	}
 
@@ -920,8 +923,9 @@ func (r *Reader) processHeading(h headingXML) parsedParagraph {
 	if r.styleResolver != nil {
 		resolved := r.styleResolver.Resolve(h.StyleName)
 		parsed.Alignment = resolved.Alignment
-		// If style has heading level, prefer that
-		if resolved.IsHeading && resolved.HeadingLevel > 0 {
+		// The style's level (default-outline-level or a level guessed from
+		// the style name) is only a fallback for a missing attribute
+		if !hasOutlineLevel && resolved.IsHeading && resolved.HeadingLevel > 0 {
 			parsed.Level = resolved.HeadingLevel
 		}
 	}
